@@ -20,6 +20,69 @@ func byteTable(t *Term, leaf string) ([256]uint8, bool) {
 	return out, true
 }
 
+// ByteFunc2 evaluates a bitwise term over two byte leaves as a 256x256 table and compares it with want.
+func ByteFunc2(t *Term, leafA, leafB string, want func(a, b int) int) bool {
+	for a := 0; a < 256; a++ {
+		for b := 0; b < 256; b++ {
+			r, ok := evalByteEnv(t, map[string]int{leafA: a, leafB: b})
+			if !ok || r != want(a, b)&0xff {
+				return false
+			}
+		}
+	}
+	return true
+}
+
+// ByteFunc1 evaluates a bitwise term over one byte leaf and compares it with want.
+func ByteFunc1(t *Term, leaf string, want func(a int) int) bool {
+	for a := 0; a < 256; a++ {
+		r, ok := evalByteEnv(t, map[string]int{leaf: a})
+		if !ok || r != want(a)&0xff {
+			return false
+		}
+	}
+	return true
+}
+
+func evalByteEnv(t *Term, env map[string]int) (int, bool) {
+	if v, ok := env[t.String()]; ok {
+		return v, true
+	}
+	if len(t.Args) == 0 && strings.HasPrefix(t.Op, "#") {
+		n, err := strconv.Atoi(t.Op[1:])
+		return n, err == nil
+	}
+	if len(t.Args) == 2 {
+		a, ok1 := evalByteEnv(t.Args[0], env)
+		b, ok2 := evalByteEnv(t.Args[1], env)
+		if !ok1 || !ok2 {
+			return 0, false
+		}
+		switch t.Op {
+		case "and":
+			return a & b, true
+		case "or":
+			return a | b, true
+		case "xor":
+			return a ^ b, true
+		case "andnot":
+			return a &^ b, true
+		case "shl":
+			return (a << uint(b)) & 0xff, true
+		case "shr":
+			return a >> uint(b), true
+		}
+	}
+	if len(t.Args) == 1 && t.Op == "compl" {
+		a, ok := evalByteEnv(t.Args[0], env)
+		return (^a) & 0xff, ok
+	}
+	if len(t.Args) == 1 && strings.HasPrefix(t.Op, "conv:") {
+		return evalByteEnv(t.Args[0], env)
+	}
+	return 0, false
+}
+
 func evalByte(t *Term, leaf string, v int) (int, bool) {
 	if t.String() == leaf {
 		return v, true
